@@ -143,6 +143,9 @@ func (s *Stack) ServeReturned() (bool, error) {
 	return s.Returned, s.ServeErr
 }
 
+// Clients returns the clients created so far (in creation order).
+func (s *Stack) Clients() []*Client { return append([]*Client(nil), s.clients...) }
+
 // Shutdown closes every client, cancels the server context and waits for Serve to return.
 func (s *Stack) Shutdown() {
 	for _, c := range s.clients {
